@@ -142,9 +142,9 @@ def obligations(tier, seed):
     # with rejection
     obs.append(ob_iterfit(4, 2, 'ones', 1, 1, 1, _generators(4)))
     obs.append(ob_iterfit(4, 2, 'squares', 2, 1, 2, _generators(4)))
-    obs.append(ob_iterfit(5, 2, 'ones', 1, 2, 1, _generators(5)))
+    obs.append(ob_iterfit(5, 2, 'ones', 1, 2, 1, _generators(5)) if not q else ob_iterfit(4, 2, 'ones', 1, 2, 1, _generators(4), nbk=3))
     obs.append(ob_iterfit(5, 2, 'ones', 1, 1, 2, _generators(5), nbk=3))
-    obs.append(ob_iterfit(5, 1, 'squares', 1, 1, 2, _generators(5)))
+    obs.append(ob_iterfit(4, 1, 'squares', 1, 1, 1, _generators(4)))
     if not q:
         obs.append(ob_iterfit(5, 3, 'squares', 1, 1, 2, _generators(5)))
         obs.append(ob_iterfit(5, 2, 'neg_zero', 1, 1, 2, _generators(5)))
